@@ -69,7 +69,7 @@ func (s *hsut) join(m *hmodel, e *helem) {
 	if len(m.live) > m.peak {
 		m.peak = len(m.live)
 	}
-	s.c.Max("heap/max_len", int64(len(m.live)))
+	s.c.Max(s.pfx+"max_len", int64(len(m.live)))
 }
 
 func (s *hsut) leave(m *hmodel, e *helem) {
@@ -502,7 +502,7 @@ func (s *hsut) opInit(m *hmodel, keys []int, ord order) bool {
 	if !guard(c, "Init", func() { m.h.Init(items, ord.less) }) {
 		return false
 	}
-	c.Logf("%s.Init(%v, %s)", m.name, items, ord.name)
+	c.Logf("%s.Init(%v, %s)", m.name, iv(items), ord.name)
 	m.ord = ord
 	for _, e := range es {
 		s.join(m, e)
@@ -538,13 +538,13 @@ func (s *hsut) opPopAll(m *hmodel, k int) bool {
 	}) {
 		return false
 	}
-	c.Logf("%s.PopAll() stop-after=%d -> %v", m.name, k, got)
+	c.Logf("%s.PopAll() stop-after=%d -> %v", m.name, k, iv(got))
 	want := n0
 	if k >= 0 && k < n0 {
 		want = k
 	}
 	if len(got) != want {
-		c.Failf("popall-count", "%s.PopAll() on %d elements, consumer stops after %d: yielded %d values %v", m.name, n0, k, len(got), got)
+		c.Failf("popall-count", "%s.PopAll() on %d elements, consumer stops after %d: yielded %d values %v", m.name, n0, k, len(got), iv(got))
 		return false
 	}
 	for i, v := range got {
@@ -562,7 +562,7 @@ func (s *hsut) opPopAll(m *hmodel, k int) bool {
 			return false
 		}
 		if y := s.preceder(m, e); y != nil {
-			c.Failf("popall-order", "%s.PopAll() yielded %v at position %d before %v which precedes it (order %s): sequence %v is not sorted", m.name, v, i, y.it(), m.ord.name, got)
+			c.Failf("popall-order", "%s.PopAll() yielded %v at position %d before %v which precedes it (order %s): sequence %v is not sorted", m.name, v, i, y.it(), m.ord.name, iv(got))
 			return false
 		}
 		s.leave(m, e)
@@ -722,22 +722,36 @@ func newKeyFor(rng *ev.Rand, g *keygen, old int) int {
 	}
 }
 
-func heapCase(c *ev.Case) {
+func heapCase(c *ev.Case) { heapRun(c, false) }
+
+// heapDeepCase: the same mix on heaps of hundreds to a few thousand elements
+// (tree depth 8..11) and a few thousand operations.
+func heapDeepCase(c *ev.Case) { heapRun(c, true) }
+
+func heapRun(c *ev.Case, deep bool) {
 	rng := c.Rng
 	s := newHsut(c)
 	g := newKeygen(rng)
+	sizeA := rng.Pick(0, 1, 2, 3, 7, 12, 15, 30)
+	sizeB := rng.Pick(0, 2, 5, 12, 40)
+	nops := rng.Pick(20, 50, 50, 50, 120)
+	if deep {
+		s.pfx = "deep/h_"
+		sizeA = rng.Pick(255, 256, 600, 1023, 1024, 1500)
+		sizeB = rng.Pick(0, 300, 2100)
+		nops = rng.Pick(1000, 2500)
+	}
 	// two heaps; B is often the larger one so that a foreign handle's index is
 	// out of A's range
 	ordA, ordB := pickOrder(rng), pickOrder(rng)
-	a := s.addHeap("A", ordA, initialKeys(rng, g, rng.Pick(0, 1, 2, 3, 7, 12, 15, 30), ordA), rng.Chance(1, 2))
+	a := s.addHeap("A", ordA, initialKeys(rng, g, sizeA, ordA), rng.Chance(1, 2))
 	if c.Failed() {
 		return
 	}
-	b := s.addHeap("B", ordB, initialKeys(rng, g, rng.Pick(0, 2, 5, 12, 40), ordB), rng.Chance(1, 2))
+	b := s.addHeap("B", ordB, initialKeys(rng, g, sizeB, ordB), rng.Chance(1, 2))
 	if c.Failed() {
 		return
 	}
-	nops := rng.Pick(20, 50, 50, 50, 120)
 	phase := 0
 	for i := 0; i < nops; i++ {
 		if i%25 == 0 {
@@ -793,10 +807,18 @@ func heapCase(c *ev.Case) {
 			if len(m.live) == 0 {
 				ok = s.opInit(m, g.many(rng.Pick(0, 1, 2, 6, 13, 20)), pickOrder(rng))
 			} else {
-				ok = s.opPopAll(m, rng.Intn(len(m.live)+1))
+				k := rng.Intn(len(m.live) + 1)
+				if deep && k > 24 {
+					k = rng.Intn(25)
+				}
+				ok = s.opPopAll(m, k)
 			}
 		case p < pushP+popP+50:
-			ok = s.drainRefill(m)
+			if deep && !rng.Chance(1, 40) {
+				ok = s.opPeek(m)
+			} else {
+				ok = s.drainRefill(m)
+			}
 		default:
 			ok = s.opPeek(m)
 		}
@@ -831,7 +853,7 @@ func heapCase(c *ev.Case) {
 		c.Distinct(s.hash)
 	}
 	if c.WantSample() {
-		c.Sample(fmt.Sprintf("heap: A order %s, B order %s, key mode %d, %d ops, %d elements created, peak length %d, all drained and every handle stale at the end", ordA.name, ordB.name, g.mode, nops, len(s.elems), peak))
+		c.Sample(fmt.Sprintf("heap (deep=%v): A order %s, B order %s, key mode %d, %d ops, %d elements created, peak length %d, all drained and every handle stale at the end", deep, ordA.name, ordB.name, g.mode, nops, len(s.elems), peak))
 	}
 }
 
@@ -869,7 +891,7 @@ func reinitCase(c *ev.Case) {
 	if !guard(c, "Init", func() { m.h.Init(items, ord2.less) }) {
 		return
 	}
-	c.Logf("H.Init(%v, %s) while H holds %d elements", items, ord2.name, len(old))
+	c.Logf("H.Init(%v, %s) while H holds %d elements", iv(items), ord2.name, len(old))
 	for _, e := range old {
 		s.leave(m, e)
 	}
@@ -891,7 +913,7 @@ func reinitCase(c *ev.Case) {
 			}
 			c.Logf("old handle of %v: Index() = %d", e.it(), idx)
 			if idx != -1 {
-				c.Failf("reinit-old-handle-index", "H.Init(%v) replaced the contents while element %v was inside; that element has left the heap but its handle reports Index() = %d, want -1", items, e.it(), idx)
+				c.Failf("reinit-old-handle-index", "H.Init(%v) replaced the contents while element %v was inside; that element has left the heap but its handle reports Index() = %d, want -1", iv(items), e.it(), idx)
 				return false
 			}
 		}
@@ -928,7 +950,7 @@ func reinitCase(c *ev.Case) {
 		}
 		c.Logf("H.%s(old handle of %v) -> Len %d", op, e.it(), n1)
 		if n1 != n0 {
-			c.Failf("reinit-old-handle-effect", "after H.Init(%v), H.%s(handle of the discarded element %v) changed Len from %d to %d; a handle of an element that has left the heap must be ignored", items, op, e.it(), n0, n1)
+			c.Failf("reinit-old-handle-effect", "after H.Init(%v), H.%s(handle of the discarded element %v) changed Len from %d to %d; a handle of an element that has left the heap must be ignored", iv(items), op, e.it(), n0, n1)
 			return
 		}
 	}
@@ -941,6 +963,6 @@ func reinitCase(c *ev.Case) {
 	}
 	c.Distinct(s.hash)
 	if c.WantSample() {
-		c.Sample(fmt.Sprintf("reinit: heap with %d elements re-initialised with %v (order %s), old handles inspected (variant %d), drained", len(old), items, ord2.name, variant))
+		c.Sample(fmt.Sprintf("reinit: heap with %d elements re-initialised with %v (order %s), old handles inspected (variant %d), drained", len(old), iv(items), ord2.name, variant))
 	}
 }
